@@ -21,16 +21,13 @@ DOW = {"sunday": 6, "monday": 0, "tuesday": 1, "wednesday": 2, "thursday": 3, "f
 
 
 def real(label):
-    """UTC instant of a local label; None if the label does not exist (spring-forward gap)."""
-    a = label.replace(tzinfo=TZ, fold=0)
-    back = a.astimezone(UTC).astimezone(TZ).replace(tzinfo=None)
-    if back != label:
-        return None
-    return a.astimezone(UTC)
+    """UTC instant of a local label.  A label repeated by fall-back means its first occurrence; a label inside the
+    spring-forward gap means the instant given by the offset before the jump (PEP 495, fold=0)."""
+    return label.replace(tzinfo=TZ, fold=0).astimezone(UTC)
 
 
 def exists(label):
-    return real(label) is not None
+    return real(label).astimezone(TZ).replace(tzinfo=None) == label
 
 
 def ambiguous(label):
@@ -208,21 +205,26 @@ class Cron:
     def matches(self, t):
         return t.second == 0 and t.microsecond == 0 and t.minute in self.minute and t.hour in self.hour and self.day_ok(t.date())
 
-    def next(self, now, horizon_days=3000):
-        """Least matching label strictly after `now` in REAL time that exists; a repeated label occurs once."""
+    def next(self, now, horizon_days=3000, gap="pep495"):
+        """Matching label with the least real instant strictly after `now` (ties: the earlier label).
+        gap='skip': labels inside the spring-forward gap do not occur."""
         now_real = real(now)
-        day = now.date()
+        day = now.date() - dt.timedelta(days=1)
         end = day + dt.timedelta(days=horizon_days)
+        hours, minutes = sorted(self.hour), sorted(self.minute)
         while day <= end:
             if self.day_ok(day):
-                for h in sorted(self.hour):
-                    for m in sorted(self.minute):
+                best = None
+                for h in hours:
+                    for m in minutes:
                         t = dt.datetime(day.year, day.month, day.day, h, m)
                         r = real(t)
-                        if r is None:
-                            continue  # skipped by spring-forward
-                        if r > now_real:
-                            return t
+                        if gap == "skip" and not exists(t):
+                            continue
+                        if r > now_real and (best is None or (r, t) < best):
+                            best = (r, t)
+                if best is not None:
+                    return best[1]
             day += dt.timedelta(days=1)
         return None
 
